@@ -1,6 +1,6 @@
 // C17 -- RateMonitoring and CheckupRate follow the stamped-event history exactly.
 //  S1: BFS to fixpoint over (monitor + both rate check-ups private state x model), small windows (W=4),
-//      11-event alphabet (7 data periods, 4 heartbeat offsets); objects are not copyable => state = event history
+//      12-event alphabet (7 data periods, 4 heartbeat offsets); objects are not copyable => state = event history
 //      replayed on fresh objects; canonical state drops absolute time (checked differentially with a shifted origin).
 //  S2: long scripted runs for larger windows with iterative deviation bounding (jitter, burst, silences, heartbeats).
 #include <romea_core_common/monitoring/RateMonitoring.hpp>
@@ -16,8 +16,8 @@ namespace {
 
 const long long kMs = 1000000LL, kS = 1000000000LL;
 const long long kPeriods[] = {1000LL, kMs, 499 * kMs, 500 * kMs, 500 * kMs + 1, kS, 10 * kS};
-const long long kHb[] = {0, 500 * kMs, 500 * kMs + 1, kS};
-const int kNP = 7, kNH = 4;
+const long long kHb[] = {0, 500 * kMs, 500 * kMs + 1, kS, (1LL << 32) + 200 * kMs};   // the last: a silence just above 2^32 ns
+const int kNP = 7, kNH = 5;
 
 const char* sname(DiagnosticStatus s) { switch (s) { case DiagnosticStatus::OK: return "OK"; case DiagnosticStatus::WARN: return "WARN"; case DiagnosticStatus::ERROR: return "ERROR"; default: return "STALE"; } }
 std::string printed(double v) { std::ostringstream os; os << v; return os.str(); }
@@ -223,7 +223,8 @@ void s1b(vf::Ctx& c, double rate, double tol, int depth, int first) {
 // deviation kinds applied at event position pos of the default steady script
 //  0 jitter +10%, 1 jitter -10%, 2 burst (1 us period), 3 silence 0.6 s, 4 silence 10 s, 5 early heartbeat inserted, 6 late heartbeat inserted (0.5s+1ns), 7 very late heartbeat (2 s) then data
 struct Dev { int pos, kind; };
-const char* kDevName[] = {"jitter+10%", "jitter-10%", "burst_1us", "silence_0.6s", "silence_10s", "heartbeat_early", "heartbeat_0.5s+1ns", "heartbeat_2s"};
+const char* kDevName[] = {"jitter+10%", "jitter-10%", "burst_1us", "silence_0.6s", "silence_10s", "heartbeat_early", "heartbeat_0.5s+1ns", "heartbeat_2s", "heartbeat_2^31ns+0.2s", "heartbeat_2^32ns+0.2s", "heartbeat_2^33ns+0.2s", "heartbeat_9.9s"};
+const int kNDev = 12;
 bool run_script(vf::Ctx& c, double rate, double tol, int len, const std::vector<Dev>& devs, bool zeroFirst = false, bool jittered = false) {
   Sys s(rate, tol, zeroFirst ? -20 * kS : 77 * kS); s.zeroFirst = zeroFirst;
   long long period = (long long)llround(1e9 / rate);
@@ -237,6 +238,7 @@ bool run_script(vf::Ctx& c, double rate, double tol, int len, const std::vector<
         case 5: evs.push_back({false, std::min(period / 2, 400 * kMs)}); break;
         case 6: evs.push_back({false, 500 * kMs + 1}); if (e.dt <= 500 * kMs + 1) e.dt = 500 * kMs + 2; break;
         case 7: evs.push_back({false, 2 * kS}); evs.push_back({false, 3 * kS}); e.dt = 3 * kS + period; break;
+        case 8: case 9: case 10: case 11: { long long hb = d.kind == 11 ? 9900 * kMs : (1LL << (23 + d.kind)) + 200 * kMs; evs.push_back({false, hb}); e.dt = hb + period; break; }   // a single heartbeat after a silence just above 2^31 / 2^32 / 2^33 ns (and 9.9 s)
       }
     }
     evs.push_back(e);
@@ -256,10 +258,10 @@ bool run_script(vf::Ctx& c, double rate, double tol, int len, const std::vector<
 
 void s2(vf::Ctx& c, double rate, double tol, int len, int bound, int first) {
   if (first < 0) { run_script(c, rate, tol, len, {}); run_script(c, rate, tol, len, {}, true); run_script(c, rate, tol, std::max(len, 700), {}, false, true); run_script(c, rate, tol, std::max(len, 700), {{300, 3}, {301, 6}}, false, true); return; }
-  for (int k1 = 0; k1 < 8; ++k1) {
+  for (int k1 = 0; k1 < kNDev; ++k1) {
     if (!run_script(c, rate, tol, len, {{first, k1}})) return;
     if (!run_script(c, rate, tol, std::min(len, 150), {{first, k1}}, true)) return;
-    if (bound >= 2) for (int p2 = first + 1; p2 < len; ++p2) for (int k2 = 0; k2 < 8; ++k2) if (!run_script(c, rate, tol, len, {{first, k1}, {p2, k2}})) return;
+    if (bound >= 2) for (int p2 = first + 1; p2 < len; ++p2) for (int k2 = 0; k2 < kNDev; ++k2) if (!run_script(c, rate, tol, len, {{first, k1}, {p2, k2}})) return;
   }
 }
 
@@ -300,9 +302,9 @@ std::string vf_describe(const std::string& tier) {
   o.str("S1", th ? "expected rates 0.5,1,2 (W=4) x tolerance {0,0.1} and 2.5 (W=5) x 0.1" : "expected rates 0.5,1,2 (W=4) x tolerance {0,0.1}");
   o.vec("S1_data_periods_ns", std::vector<long long>(kPeriods, kPeriods + kNP)).vec("S1_heartbeat_offsets_ns", std::vector<long long>(kHb, kHb + kNH));
   o.str("S1_search", "BFS to fixpoint; state = monitor queue/sum/rate + both check-up reports + model; history replayed on fresh objects at two time origins");
-  o.str("S1b", th ? "every sequence of 6 events over the 11-event alphabet plus \"replace the bare monitor by a copy of itself\" for expected rates 1 (W=4) and 2.5 (W=5), no state de-duplication" : "every sequence of 5 events over the 11-event alphabet plus \"replace the bare monitor by a copy of itself\" for expected rates 1 (W=4) and 2.5 (W=5), no state de-duplication");
-  o.str("S2", th ? "expected rates 5,10,12.5,32,200 x tolerance {0,0.1}: 500-event steady script, deviation bound 1 at every position (8 kinds), bound 2 on scripts of 2-3 windows"
-                 : "expected rates 5,10,12.5,32,200 x tolerance {0,0.1}: 500-event steady script (bound 0), bound 1 on 3W+8 events (8 kinds, every position), bound 2 on 2W+6 events for rate 5 and 12.5");
+  o.str("S1b", th ? "every sequence of 6 events over the 12-event alphabet plus \"replace the bare monitor by a copy of itself\" for expected rates 1 (W=4) and 2.5 (W=5), no state de-duplication" : "every sequence of 5 events over the 12-event alphabet plus \"replace the bare monitor by a copy of itself\" for expected rates 1 (W=4) and 2.5 (W=5), no state de-duplication");
+  o.str("S2", th ? "expected rates 5,10,12.5,32,200 x tolerance {0,0.1}: 500-event steady script, deviation bound 1 at every position (12 kinds incl. single heartbeats after silences just above 2^31 / 2^32 / 2^33 ns), bound 2 on scripts of 2-3 windows"
+                 : "expected rates 5,10,12.5,32,200 x tolerance {0,0.1}: 500-event steady script (bound 0), bound 1 on 3W+8 events (12 kinds incl. single heartbeats after silences just above 2^31 / 2^32 / 2^33 ns, every position), bound 2 on 2W+6 events for rate 5 and 12.5");
   o.str("S2_jittered", "per rate and tolerance: a 700-event script whose periods vary by +-10 % in five levels plus a few nanoseconds (never constant), plain and with a silence + late heartbeat in the middle");
   o.str("time_origins", "S1: every transition at two origins plus a run whose first data stamp is exactly 0 ns, canonical states compared; S1b: every sequence with a positive origin and with first stamp 0; S2: bound 0/1 scripts also with first stamp 0 (first 150 events)");
   o.str("oracle", "rate = 0 until W+1 stamps, then W/(span of last W periods) within 4 ulp; timeout iff silence > 0.5 s; report status/message/info vs model after every event");
